@@ -10,6 +10,10 @@ def main():
     a = ap.parse_args()
     seed = int(os.environ.get("VERIF_SEED", "0") or 0)
     prop = a.prop.upper()
+    if prop == "C12":
+        from . import setseam  # must precede the first import of hdl21: set displays / comprehensions become explorable
+
+        setseam.install()
     mod = importlib.import_module(f"hv.checks.{prop.lower()}")
     if prop == "SELFTEST":
         sys.exit(mod.selftest())
